@@ -13,6 +13,7 @@ import sysconfig
 from concurrent.futures import ThreadPoolExecutor
 
 from .. import core
+from ..gen import scopes
 
 
 def worker(payload):
@@ -54,8 +55,15 @@ def run(tier, replay=None):
             stdlib = sysconfig.get_paths()['stdlib']
             std = sorted(glob.glob(os.path.join(stdlib, '*.py')) + glob.glob(os.path.join(stdlib, '*', '*.py')))
             files += std if thorough else rng.sample(std, 60)
+            gdir = os.path.join(wd, 'gen')
+            os.makedirs(gdir)
+            for mi, src in enumerate(scopes.gen_modules(seed * 17 + 3, 4000 if thorough else 400)):
+                f = os.path.join(gdir, 'scopes%d.py' % mi)
+                open(f, 'w').write(src)
+                files.append(f)
             n = core.NCPU
-            jobs = [{'chains': [[i, c['chain'], c['owners']] for i, c in enumerate(chains)][k::n],
+            pinned = [[2000000 + i, f['input']] for i, f in enumerate(ck.findings)]
+            jobs = [{'chains': [[i, c['chain'], c['owners']] for i, c in enumerate(chains)][k::n], 'pinned': pinned if k == 0 else [],
                      'files': [[1000000 + i, f] for i, f in enumerate(files)][k::n]} for k in range(n)]
             cases = []
             with ThreadPoolExecutor(max_workers=n) as ex:
@@ -85,6 +93,10 @@ def run(tier, replay=None):
         seen = set()
         for f in sorted(fails, key=lambda f: len(cases[f[2]].get('source', 'x' * 10000))):
             c = cases[f[2]]
+            if c.get('pinned'):
+                fd = [x for x in ck.findings if x['input'] == c['source']][0]
+                ck.known(fd['id'], fd['what'])
+                continue
             key = c.get('source') or c.get('file')
             if key in seen:
                 continue
@@ -92,6 +104,9 @@ def run(tier, replay=None):
             if len(seen) > 10:
                 break
             bad = [r for r in c['reads'] if not r['skip'] and any(c['norm'][a] != c['norm'][r['sym']] for a in r['alts'])]
+            if c.get('file', '').startswith(wd):
+                c['source'] = open(c['file']).read()      # a generated module: keep its text, the scratch file goes away
+                c['file'] = 'generated:' + os.path.basename(c['file'])
             sig = {'where': c.get('source') or c.get('file'), 'reads': [[r['name'], r['pos']] for r in bad[:3]]}
             ck.violation(sig, 'read(s) %s of %s resolve to bindings of another scope than the one CPython assigns: %s' % (
                 [[r['name'], r['pos']] for r in bad[:3]], c.get('file') or repr(c.get('source')),
@@ -104,7 +119,8 @@ def run(tier, replay=None):
         ck.extra.update({'chains': len([c for c in cases if 'chain' in c]), 'files': len([c for c in cases if 'file' in c]),
                          'files_skipped': len(skipped), 'reads_compared': ck.traces,
                          'reads_with_unmapped_alternative': sum(1 for c in cases for r in c['reads'] if r.get('partial')),
-                         'failing_cases': len({f[2] for f in fails})})
+                         'failing_cases': len({f[2] for f in fails}),
+                         'reads_excluded_as_known_finding_pattern': sum(1 for c in cases for r in c['reads'] if r.get('known') and not c.get('pinned'))})
         ck.rule = ('scope chains = every legal chain of Scoping.tla up to depth %d (kinds function/class/lambda/comprehension; per scope the role of x: '
                    'none/read/bind/bindread and, in functions, global / nonlocal declarations with bind/read) %s, rendered to source; plus every '
                    'identifier read of real files (repository + standard library%s); owner by CPython symtable; non-trivial = a read whose owner is '
